@@ -385,11 +385,16 @@ func c04Oracle(info *runInfo, res *verifsim.Result) {
 					res.Violate("C04.metric", "gauge", "scrape at %s: %s = %v (present=%t) but forwarding read was %t", ms(e.T), k, v, ok, fwd)
 				}
 				conf, adv := configured[ifn]
-				if !adv {
-					continue
-				}
 				mk := fmt.Sprintf("corerad_advertiser_misconfiguration{details=interface_not_forwarding,interface=%s}", ifn)
 				_, has := got[mk]
+				if !adv {
+					// an interface that advertises nothing cannot advertise a default
+					// route it should not: no misconfiguration, whatever its neighbours do
+					if has {
+						res.Violate("C04.metric", "misconfiguration-non-advertiser", "scrape at %s: %s is reported although %s does not advertise (its forwarding read was %t)", ms(e.T), mk, ifn, fwd)
+					}
+					continue
+				}
 				if conf != 0 && has != !fwd {
 					res.Violate("C04.metric", "misconfiguration", "scrape at %s: %s present=%t but forwarding read was %t and configured lifetime is %ds", ms(e.T), mk, has, fwd, conf)
 				}
